@@ -50,15 +50,8 @@ pub fn check_all(an: &Analysis<'_>, t: &mut Tally, idx: u64) {
         c10(&mut cx);
         return;
     }
-    // The stats pipelines are real writers fed with what the real runner emitted;
-    // a panic inside them must not take the monitor down with it.
-    crate::exec::IN_RUN.store(true, std::sync::atomic::Ordering::SeqCst);
-    let r = std::panic::catch_unwind(std::panic::AssertUnwindSafe(|| crate::pipelines::check_c01(&mut cx)));
-    crate::exec::IN_RUN.store(false, std::sync::atomic::Ordering::SeqCst);
-    if let Err(p) = r {
-        let msg = format!("{:?}", crate::evrec::payload_of(&std::sync::Arc::from(p)));
-        cx.viol("C01", "verdict:pipeline-panicked", format!("a stats pipeline panicked on the stream the runner emitted: {msg}"), json!(null));
-    }
+    #[cfg(feature = "writers")]
+    c01_guarded(&mut cx);
     c02(&mut cx);
     c03(&mut cx);
     c04(&mut cx);
@@ -69,6 +62,19 @@ pub fn check_all(an: &Analysis<'_>, t: &mut Tally, idx: u64) {
     c09(&mut cx);
     c10(&mut cx);
     c18(&mut cx);
+}
+
+#[cfg(feature = "writers")]
+fn c01_guarded(cx: &mut Ctx<'_, '_>) {
+    // The stats pipelines are real writers fed with what the real runner emitted;
+    // a panic inside them must not take the monitor down with it.
+    crate::exec::IN_RUN.store(true, std::sync::atomic::Ordering::SeqCst);
+    let r = std::panic::catch_unwind(std::panic::AssertUnwindSafe(|| crate::pipelines::check_c01(cx)));
+    crate::exec::IN_RUN.store(false, std::sync::atomic::Ordering::SeqCst);
+    if let Err(p) = r {
+        let msg = format!("{:?}", crate::evrec::payload_of(&std::sync::Arc::from(p)));
+        cx.viol("C01", "verdict:pipeline-panicked", format!("a stats pipeline panicked on the stream the runner emitted: {msg}"), json!(null));
+    }
 }
 
 // ---------------------------------------------------------------------------
